@@ -181,7 +181,9 @@ impl MemoryPool {
         self.alloc_count.fetch_add(1, Ordering::Relaxed);
 
         // Try to get a chunk from the pool first
+        verif_point!("mp.alloc.trylock");
         if let Ok(mut free_chunks) = self.free_chunks.try_lock() {
+            verif_point!("mp.alloc.locked");
             if let Some(chunk) = free_chunks.pop_front() {
                 self.pool_hits.fetch_add(1, Ordering::Relaxed);
                 self.update_stats_on_alloc(true);
@@ -191,6 +193,7 @@ impl MemoryPool {
         }
 
         // Pool is empty or locked, allocate new chunk
+        verif_point!("mp.alloc.miss");
         self.pool_misses.fetch_add(1, Ordering::Relaxed);
         self.allocate_new_chunk()
     }
@@ -210,7 +213,9 @@ impl MemoryPool {
         self.dealloc_count.fetch_add(1, Ordering::Relaxed);
 
         // Try to return chunk to pool if not full
+        verif_point!("mp.free.trylock");
         if let Ok(mut free_chunks) = self.free_chunks.try_lock() {
+            verif_point!("mp.free.locked");
             if free_chunks.len() < self.config.max_chunks {
                 free_chunks.push_back(chunk.as_ptr());
                 self.update_stats_on_dealloc(true);
